@@ -26,7 +26,7 @@ PROPS = {}
 # ------------------------------------------------------------------------------------------------------------ C02
 PROPS["C02"] = {
     "files": ["src/crypto/core.rs", "src/util.rs"],
-    "functions": ["CryptoCore::encrypt", "CryptoCore::decrypt", "CryptoCore::decrypt_with_key", "Nonce::increment",
+    "functions": ["CryptoCore::encrypt", "CryptoCore::decrypt", "CryptoCore::decrypt_with_key", "Nonce::increment", "PeerCrypto::send_message", "PeerCrypto::handle_message",
                   "MsgBuffer::{new,set_start,set_length,message_mut,message,len,get_start}"],
     "bounds": "one seal per harness; payload 0..16 bytes symbolic (1000/9000/65400 bytes: window arithmetic only); slot ids "
               "concrete 0..3; one adversarial rewrite of one byte (any value) per region {key id, each counter byte, "
@@ -40,6 +40,12 @@ PROPS["C02"] = {
         K("c04_seal_fresh_nonce_s0_n1000", "envelope window arithmetic, 1000-byte payload", T),
         K("c04_seal_fresh_nonce_s1_n9000", "envelope window arithmetic, 9000-byte payload", T),
         K("c04_seal_fresh_nonce_s2_n65400", "envelope window arithmetic, 65400-byte payload", T),
+        K("c02_send_message_seals_type_and_payload_n4", "PeerCrypto::send_message: type byte + payload go through exactly one seal; nothing leaves outside it"),
+        K("c02_send_message_seals_type_and_payload_n0", "same, empty payload", T),
+        K("c02_send_message_plain_only_when_flagged", "bytes leave unsealed only on a connection whose handshake negotiated plain"),
+        K("c08_dispatch_pending_len02", "while the handshake is pending nothing but handshake messages is accepted (no core yet != plain)", role="c08_dispatch"),
+        K("c08_dispatch_pending_len24", "same, 24-byte datagram", T, role="c08_dispatch"),
+        K("c08_dispatch_enc_len24", "on an encrypted connection nothing an outsider sends is delivered", role="c08_dispatch"),
         K("c02_recv_genuine_s0_n4", "untouched datagram (slot 0): accepted iff counter fits 56 bits and sender half is opposite; payload byte-identical; seen = counter"),
         K("c02_recv_genuine_s0_n0", "same, empty payload", T),
         K("c02_recv_genuine_s0_n8", "same, 8-byte payload", T),
@@ -93,6 +99,7 @@ PROPS["C03"] = {
         K("c03_tick_step", "tick: min'=next_min, next_min'=seen+1, seen'=seen"),
         K("c03_history_invariant_step", "inductive invariant with ghost history: accepted => higher than everything accepted before the tick preceding the last tick; newer-than-seen is inside the window"),
         K("c03_all_slots_tick", "every_second applies the tick to all four key slots"),
+        K("c03_peercrypto_tick_reaches_core", "PeerCrypto::every_second drives the tick of the connection's core"),
     ],
 }
 
@@ -213,7 +220,7 @@ PROPS["C11"] = {
         K("c11_lookup_k2_len4", "lookup = owner of the longest matching prefix (first on ties), None iff none; cached until min(now+switch timeout, claim expiry)"),
         K("c11_lookup_k3_len1", "same, 3 claims, 1-byte addresses"),
         K("c11_lookup_k0_len4", "empty table", T), K("c11_lookup_k1_len4", "1 claim", T), K("c11_lookup_k2_len1", "2 claims, 1-byte", T),
-        K("c11_lookup_k2_len6", "2 claims, MAC", T), K("c11_lookup_k2_len16", "2 claims, IPv6", T),
+        K("c11_lookup_k2_len6", "2 claims, MAC (prefix lengths up to 48 meaningful)"), K("c11_lookup_k2_len16", "2 claims, IPv6 (prefix lengths up to 128 meaningful)"),
         K("c11_lookup_k3_len4", "3 claims, IPv4", T), K("c11_lookup_k3_len8", "3 claims, VLAN+MAC", T),
         K("c11_lookup_prefers_cache", "a cached decision is returned as is and not refreshed"),
         K("c11_sweep_removes_exactly_expired", "the sweep keeps exactly the claims and decisions whose expiry is not in the past"),
@@ -231,8 +238,8 @@ PROPS["C12"] = {
                "'next hop is a peer' at node level; tables beyond 3 claims / announcements beyond 2 ranges",
     "assumptions": TABLE_ASSUME,
     "obligations": [
-        K("c12_set_claims_k2_m1", "claims of the announcing peer == announcement; other peer untouched; dropped claim flushes its cached decisions", role="c12_set_claims"),
-        K("c12_set_claims_k1_m1", "same, 1 pre-entry", role="c12_set_claims"),
+        K("c12_set_claims_k2_m1", "claims of the announcing peer == announcement; other peer untouched; dropped claim flushes its cached decisions", role="c12_set_claims", mem_gb=24, timeout={"quick": 600}),
+        K("c12_set_claims_k1_m1", "same, 1 pre-entry", role="c12_set_claims", mem_gb=24, timeout={"quick": 600}),
         K("c12_set_claims_k2_m0", "withdraw everything", role="c12_set_claims"),
         K("c12_set_claims_k0_m2", "first announcement (with possible duplicate)", role="c12_set_claims"),
         K("c12_set_claims_k0_m0", "", T, role="c12_set_claims"), K("c12_set_claims_k0_m1", "", T, role="c12_set_claims"),
@@ -325,8 +332,9 @@ PROPS["C20"] = {
 PROPS["C18"] = {
     "files": ["src/crypto/common.rs", "src/util.rs"],
     "functions": ["Crypto::generate_keypair", "Crypto::parse_private_key", "Crypto::parse_public_key", "Crypto::parse_keypair",
-                  "Crypto::public_key_from_private_key", "Crypto::parse_key_bytes"],
-    "bounds": "all 2^256 seeds (arbitrary RNG output) through the real key API; the text codec is replaced by its contract "
+                  "Crypto::public_key_from_private_key", "Crypto::parse_key_bytes", "Crypto::keypair_from_password"],
+    "bounds": "all 2^256 seeds (arbitrary RNG output) through the real key API; all ASCII passwords of length 0, 1 (quick) and 2 (thorough), whitespace and "
+              "control characters included, for the password path; the text codec is replaced by its contract "
               "(see assumptions) because to_base62/from_base62 do not complete under CBMC even for 2 bytes",
     "outside": "the text codec itself on arbitrary strings (only assumed); PBKDF2 determinism and password-derived trust between "
                "two nodes (ring is a model); Crypto::new end to end (speed measurement)",
@@ -339,5 +347,9 @@ PROPS["C18"] = {
     "obligations": [
         K("c18_generated_keys_are_accepted", "generated key pair accepted as private / public / pair and denotes the same keys; private key yields its public key",
           role="c18_key_api"),
+        K("c18_password_keys_match_printed_keys_len1", "node key derived from a password == the key pair printed for it (all 1-character ASCII passwords)",
+          role="c18_password", timeout={"quick": 900, "thorough": 2400}, mem_gb=16),
+        K("c18_password_keys_match_printed_keys_len2", "same, all 2-character ASCII passwords", T, role="c18_password", timeout={"thorough": 2400}, mem_gb=24),
+        K("c18_password_keys_match_printed_keys_empty", "same, empty password", role="c18_password"),
     ],
 }
